@@ -170,3 +170,122 @@ Proof.
   destruct (run_pipeline s1) as [s2 p2]; cbn [fst] in *.
   rewrite A4, A5. exact Hp.
 Qed.
+
+(** * Sleep safety: "no progress" means "nothing changed"
+
+    The event engine stops ticking a component whose [Tick] reports no progress until a message arrives or a
+    port frees up. That is only safe when a tick that reports no progress leaves the component exactly as it
+    was; a stage that consumes or drops something without reporting it would leave work behind a sleeping
+    component. *)
+Definition quiet_stage (f : rob -> rob * bool) : Prop :=
+  forall s, snd (f s) = false -> crashed (fst (f s)) = false -> fst (f s) = s.
+Definition mono_stage (f : rob -> rob * bool) : Prop :=
+  forall s, crashed s = true -> crashed (fst (f s)) = true.
+
+Lemma top_down_quiet : quiet_stage top_down.
+Proof.
+  intros s. unfold top_down.
+  repeat match goal with
+         | |- context [match ?x with _ => _ end] => destruct x
+         end; cbn; intros; try reflexivity; discriminate.
+Qed.
+Lemma top_down_mono : mono_stage top_down.
+Proof.
+  intros s H. unfold top_down.
+  repeat match goal with
+         | |- context [match ?x with _ => _ end] => destruct x
+         end; cbn; auto.
+Qed.
+Lemma parse_bottom_quiet : quiet_stage parse_bottom.
+Proof.
+  intros s. unfold parse_bottom. destruct (bot_in s); cbn; intros; try reflexivity; discriminate.
+Qed.
+Lemma parse_bottom_mono : mono_stage parse_bottom.
+Proof. intros s H. unfold parse_bottom. destruct (bot_in s); cbn; auto. Qed.
+Lemma bottom_up_quiet : quiet_stage bottom_up.
+Proof.
+  intros s. unfold bottom_up.
+  repeat match goal with
+         | |- context [match ?x with _ => _ end] => destruct x
+         end; cbn; intros; try reflexivity; discriminate.
+Qed.
+Lemma bottom_up_mono : mono_stage bottom_up.
+Proof.
+  intros s H. unfold bottom_up.
+  repeat match goal with
+         | |- context [match ?x with _ => _ end] => destruct x
+         end; cbn; auto.
+Qed.
+
+Lemma iter_mono f : mono_stage f -> forall n, mono_stage (iter n f).
+Proof.
+  intros Hm n; induction n as [|n IH]; intros s H; cbn; [exact H|].
+  specialize (Hm s H). destruct (f s) as [s1 p1]; cbn in Hm.
+  specialize (IH s1 Hm). destruct (iter n f s1) as [s2 p2]; cbn in *. exact IH.
+Qed.
+
+Lemma iter_quiet f : quiet_stage f -> mono_stage f -> forall n, quiet_stage (iter n f).
+Proof.
+  intros Hq Hm n; induction n as [|n IH]; intros s; cbn; [reflexivity|].
+  specialize (Hq s). pose proof (iter_mono f Hm n) as Hmi.
+  destruct (f s) as [s1 p1]; cbn in Hq.
+  specialize (IH s1). specialize (Hmi s1). destruct (iter n f s1) as [s2 p2]; cbn in *.
+  intros Hp Hc. apply Bool.orb_false_iff in Hp as [Hp1 Hp2].
+  destruct (crashed s1) eqn:Ec1.
+  - rewrite (Hmi eq_refl) in Hc. discriminate.
+  - rewrite <- (Hq Hp1 eq_refl). apply IH; assumption.
+Qed.
+
+Lemma run_pipeline_quiet : quiet_stage run_pipeline.
+Proof.
+  intros s. unfold run_pipeline.
+  pose proof (iter_quiet _ bottom_up_quiet bottom_up_mono (width s) s) as Q1.
+  destruct (iter (width s) bottom_up s) as [s1 p1]; cbn [fst snd] in Q1.
+  pose proof (iter_quiet _ parse_bottom_quiet parse_bottom_mono (width s) s1) as Q2.
+  pose proof (iter_mono _ parse_bottom_mono (width s) s1) as M2.
+  destruct (iter (width s) parse_bottom s1) as [s2 p2]; cbn [fst snd] in Q2, M2.
+  pose proof (iter_quiet _ top_down_quiet top_down_mono (width s) s2) as Q3.
+  pose proof (iter_mono _ top_down_mono (width s) s2) as M3.
+  destruct (iter (width s) top_down s2) as [s3 p3]; cbn [fst snd] in *.
+  intros Hp Hc.
+  apply Bool.orb_false_iff in Hp as [Hp12 Hp3]. apply Bool.orb_false_iff in Hp12 as [Hp1 Hp2].
+  assert (E2 : crashed s2 = false).
+  { destruct (crashed s2) eqn:E; [|reflexivity]. rewrite (M3 eq_refl) in Hc. discriminate. }
+  assert (E1 : crashed s1 = false).
+  { destruct (crashed s1) eqn:E; [|reflexivity]. rewrite (M2 eq_refl) in E2. discriminate. }
+  rewrite (Q3 Hp3 Hc), (Q2 Hp2 E2). exact (Q1 Hp1 E1).
+Qed.
+
+Lemma process_ctl_quiet : quiet_stage process_ctl.
+Proof.
+  intros s. unfold process_ctl.
+  repeat match goal with
+         | |- context [match ?x with _ => _ end] => destruct x
+         end; cbn; intros; try reflexivity; discriminate.
+Qed.
+
+Lemma tick_quiet : quiet_stage tick.
+Proof.
+  intros s. unfold tick.
+  pose proof (process_ctl_quiet s) as Q1.
+  destruct (process_ctl s) as [s1 p1]; cbn [fst snd] in Q1.
+  destruct (crashed s1) eqn:Ec; cbn [fst snd].
+  - intros _ H. rewrite Ec in H. discriminate.
+  - destruct (flushing s1); cbn [fst snd].
+    + intros Hp _. exact (Q1 Hp eq_refl).
+    + pose proof (run_pipeline_quiet s1) as Q2.
+      destruct (run_pipeline s1) as [s2 p2]; cbn [fst snd] in *.
+      intros Hp Hc. apply Bool.orb_false_iff in Hp as [Hp1 Hp2].
+      rewrite (Q2 Hp2 Hc). exact (Q1 Hp1 eq_refl).
+Qed.
+
+(** Consequence at the level of observations: after a tick that reported no progress, further ticks (with no
+    delivery or retrieval in between) report no progress either. *)
+Lemma no_progress_stays s :
+  crashed s = false -> snd (tick s) = false -> crashed (fst (tick s)) = false ->
+  step (fst (tick s)) ETick = (s, OTick false).
+Proof.
+  intros Hc Hp Hc'. pose proof (tick_quiet s Hp Hc') as E. rewrite E.
+  unfold step. rewrite Hc. destruct (tick s) as [s' p]; cbn [fst snd] in *. subst.
+  rewrite Hc. reflexivity.
+Qed.
